@@ -325,16 +325,20 @@ func cmdCheck(args []string) int {
 	}
 
 	if dir := os.Getenv("GOSYM_COVERAGE"); dir != "" {
-		var miss []string
+		var miss, hits []string
 		hit := 0
 		for b, h := range blocks {
 			if h {
 				hit++
+				hits = append(hits, "+ "+b)
 			} else {
 				miss = append(miss, b)
 			}
 		}
 		sort.Strings(miss)
+		sort.Strings(hits)
+		_ = os.MkdirAll(dir, 0o755)
+		_ = os.WriteFile(filepath.Join(dir, spec.PropertyID+".hits"), []byte(strings.Join(hits, "\n")+"\n"), 0o644)
 		out := fmt.Sprintf("# %s %s: %d of %d blocks of the executed module functions were executed; never executed:\n%s\n", spec.PropertyID, *tier, hit, len(blocks), strings.Join(miss, "\n"))
 		_ = os.MkdirAll(dir, 0o755)
 		_ = os.WriteFile(filepath.Join(dir, spec.PropertyID+".txt"), []byte(out), 0o644)
